@@ -355,3 +355,72 @@ def primitive_history(tier, seed):
     r = common.result(cases, cases, fails, "5 primitives x 3 placements x edit sequences x 3 pre-reads x %d first reads" % len(FIRST_READS), exhaustive=True)
     r["failures"] = fails
     return r
+
+
+@bounded("C15", name="real-code:analytic-measures-and-symmetry", note="flat-faced primitives (Box, Extrusion with and without holes, after edits): the analytic area / volume properties equal those of their own tessellation; capsule / uv_sphere / torus for even AND odd section counts: centre of mass at the centre of the bounding box, mirror-symmetric halves")
+def analytic_and_symmetry(tier, seed):
+    import warnings
+
+    import trimesh
+    from shapely.geometry import Polygon
+
+    cells = {}
+    cases = 0
+
+    def fail(key, shape, detail=""):
+        c = cells.setdefault(key, {"what": key, "cell": key, "shape": shape, "detail": str(detail)[:200], "count": 0})
+        c["count"] += 1
+
+    P = trimesh.primitives
+    holed = Polygon([(0, 0), (4, 0), (4, 3), (0, 3)], [[(1, 1), (2, 1), (2, 2), (1, 2)]])
+    two_holes = Polygon([(0, 0), (6, 0), (6, 3), (0, 3)], [[(1, 1), (2, 1), (2, 2), (1, 2)], [(3, 0.5), (5, 0.5), (5, 2.5), (3, 2.5)]])
+    L = Polygon([(0, 0), (3, 0), (3, 1), (1, 1), (1, 3), (0, 3)])
+    with warnings.catch_warnings():
+        warnings.simplefilter("ignore")
+        flat = [("Box", P.Box(extents=[1.0, 2.0, 3.0]))]
+        for pn, pg in (("square", Polygon([(0, 0), (2, 0), (2, 1), (0, 1)])), ("L", L), ("one-hole", holed), ("two-holes", two_holes)):
+            for hgt in (1.0, 0.25, -2.0):
+                flat.append(("Extrusion[%s,h=%g]" % (pn, hgt), P.Extrusion(polygon=pg, height=hgt)))
+        ex = P.Extrusion(polygon=L, height=1.0)
+        ex.primitive.polygon = holed
+        flat.append(("Extrusion[L edited to one-hole]", ex))
+        for name, prim in flat:
+            cases += 1
+            try:
+                mesh = prim.to_mesh()
+                if abs(prim.area - mesh.area) > 1e-9 * max(1.0, mesh.area):
+                    fail("%s:analytic-area-differs-from-its-tessellation" % name.split("[")[0], name, "%.9f vs %.9f" % (prim.area, mesh.area))
+                if abs(abs(prim.volume) - abs(mesh.volume)) > 1e-9 * max(1.0, abs(mesh.volume)):
+                    fail("%s:analytic-volume-differs-from-its-tessellation" % name.split("[")[0], name, "%.9f vs %.9f" % (prim.volume, mesh.volume))
+            except Exception as ex_:  # noqa: BLE001
+                fail("%s:raised %s" % (name.split("[")[0], type(ex_).__name__), name, ex_)
+        c = trimesh.creation
+        sym = []
+        for n0, n1 in ((3, 3), (4, 4), (5, 8), (7, 6), (8, 5), (9, 9), (16, 16), (33, 12)):
+            sym.append(("capsule[count=%d,%d]" % (n0, n1), lambda n0=n0, n1=n1: c.capsule(height=1.5, radius=0.4, count=[n0, n1])))
+            sym.append(("uv_sphere[count=%d,%d]" % (n0, n1), lambda n0=n0, n1=n1: c.uv_sphere(radius=0.9, count=[n0, n1])))
+        for n in (3, 4, 5, 8, 9):
+            sym.append(("torus[%d]" % n, lambda n=n: c.torus(2.0, 0.5, major_sections=n, minor_sections=n)))
+            sym.append(("cylinder[%d]" % n, lambda n=n: c.cylinder(radius=0.7, height=2.0, sections=n)))
+        for name, mk in sym:
+            cases += 1
+            try:
+                m = mk()
+                fam = name.split("[")[0]
+                if not (m.is_watertight and m.is_winding_consistent and m.volume > 0):
+                    fail("%s:not-a-valid-solid" % fam, name)
+                    continue
+                mid_z = float(m.bounds[:, 2].mean())
+                # the shape is symmetric about the plane through the middle of its axis
+                if abs(float(m.center_mass[2]) - mid_z) > 1e-9 * max(1.0, float(m.extents[2])):
+                    fail("%s:centre-of-mass-off-the-middle-plane" % fam, name, "z %.6g vs %.6g" % (m.center_mass[2], mid_z))
+                up = m.slice_plane([0, 0, mid_z], [0, 0, 1.0], cap=False)
+                dn = m.slice_plane([0, 0, mid_z], [0, 0, -1.0], cap=False)
+                if abs(up.area - dn.area) > 1e-9 * max(1.0, m.area):
+                    fail("%s:halves-above-and-below-the-middle-plane-differ" % fam, name, "area %.9f vs %.9f" % (up.area, dn.area))
+            except Exception as ex_:  # noqa: BLE001
+                fail("%s:raised %s" % (name.split("[")[0], type(ex_).__name__), name, ex_)
+    fails = sorted(cells.values(), key=lambda c: c["cell"])
+    r = common.result(cases, cases, fails, "14 flat-faced primitives; 26 axially symmetric shapes with even and odd section counts", exhaustive=True)
+    r["failures"] = fails
+    return r
